@@ -140,8 +140,59 @@ class Location(Case):
                         yield v
 
 
+class LocationShapes(Case):
+    """bounded: "longitude and latitude arrays of different shapes are rejected" for multi-dimensional
+    input (the deductive cases speak about 1-D series): shape pairs with equal and different element
+    counts on the real function; equal shapes are accepted and give the flags of the flattened call
+    in the input's shape"""
+
+    is_bounded = True
+    module = "ioos_qc.qartod"
+    function = "location_test"
+    default_props = {}
+    props = {"bounded.shape_mismatch_rejected": ("C14",)}
+
+    def all_props(self):
+        return {"C14"}
+
+    PAIRS = [((2, 3), (3, 2)), ((1, 3), (3,)), ((3, 1), (1, 3)), ((2, 2), (4,)), ((6,), (2, 3)), ((2, 3), (2, 2)), ((3,), (4,)), ((2, 3), (2, 3)), ((1, 4), (1, 4)), ((4,), (4,)), ((2, 1, 2), (2, 1, 2)), ((2, 1, 2), (2, 2, 1))]
+
+    def one(self, values):
+        import numpy as np
+
+        from pyvc import replay
+
+        mod = replay.real_module(self.module)
+        sl, sa = tuple(values["lon_shape"]), tuple(values["lat_shape"])
+        nl, na = int(np.prod(sl)), int(np.prod(sa))
+        lon = np.array([(-170.0 + 37.0 * i) if i != 2 else np.nan for i in range(nl)]).reshape(sl)
+        lat = np.array([(-80.0 + 41.0 * i) % 170 - 85 for i in range(na)]).reshape(sa)
+        kw = {"range_max": values["rmax"]} if values.get("rmax") is not None else {}
+        try:
+            out = mod.location_test(lon, lat, **kw)
+        except ValueError:
+            return None if sl != sa else "equal shapes %s rejected with ValueError" % (sl,)
+        except Exception as e:  # noqa: BLE001
+            return "shapes %s / %s: %r" % (sl, sa, e)
+        if sl != sa:
+            return "lon %s and lat %s have different shapes but were accepted (flags of shape %s)" % (sl, sa, getattr(out, "shape", None))
+        flat = mod.location_test(lon.ravel(), lat.ravel(), **kw)
+        if out.shape != sl or np.ma.filled(np.ma.masked_array(out), 255).ravel().tolist() != np.ma.filled(np.ma.masked_array(flat), 255).tolist():
+            return "shape %s: flags %s differ from the flattened call %s" % (sl, np.asarray(out).tolist(), np.asarray(flat).tolist())
+        return None
+
+    def bounded_checks(self, tier, rng):
+        for sl, sa in self.PAIRS:
+            for rmax in (None, 3000000):
+                v = {"lon_shape": list(sl), "lat_shape": list(sa), "rmax": rmax}
+                yield ("shapes", "shapes", v, (lambda v=v: self.one(v)))
+
+    def replay_bounded(self, label, values):
+        return self.one(values)
+
+
 def cases():
-    cs = []
+    cs = [LocationShapes()]
     for b in ("default", "given"):
         for r in (False, True):
             cs.append(Location(bbox=b, range_max=r, lens="same"))
